@@ -819,12 +819,13 @@ func permIdx(r *RNG, n int) []int {
 }
 
 // malformed stream: only model = implementation is compared (expect is empty)
-func c19Malformed(c *Ctx, r *RNG, a Arch) {
+func c19Malformed(c *Ctx, r *RNG, a Arch, kind int) {
 	if len(a.blks) == 0 {
 		return
 	}
 	var f []byte
-	switch r.Intn(3) {
+	corrupt := false
+	switch kind % 3 {
 	case 0: // cut somewhere after the CARv1 header
 		base := len(a.file) - len(a.payload)
 		if a.idxKind != 0 {
@@ -851,6 +852,7 @@ func c19Malformed(c *Ctx, r *RNG, a Arch) {
 		}
 		g[base+lay.dataStart[i]+r.Intn(lay.secEnd[i]-lay.dataStart[i])] ^= 0x01
 		f = g
+		corrupt = true
 		c.Count("malformed:hash-mismatch")
 	default: // null padding after the payload of a CARv1
 		if a.ver != 1 {
@@ -860,6 +862,10 @@ func c19Malformed(c *Ctx, r *RNG, a Arch) {
 		c.Count("malformed:null-padded-v1")
 	}
 	files := VL{VB(f)}
+	if corrupt {
+		emitCli(c, "list", VL{VN(0), VN(0), VN(1)}, files, VL{a.desc()}, true)
+		emitCli(c, "list", VL{VN(1), VN(0), VN(1)}, files, VL{a.desc()}, true)
+	}
 	emitCli(c, "list", VL{}, files, VL{}, false)
 	emitCli(c, "root", VL{}, files, VL{}, false)
 	emitCli(c, "inspect", VL{VN(1)}, files, VL{}, false)
@@ -1008,7 +1014,7 @@ func init() {
 			r := c.R.Fork()
 			c19Archive(c, r, a, archs[(i+1)%n], archs[(i+2)%n])
 			if i%5 == 0 {
-				c19Malformed(c, r, a)
+				c19Malformed(c, r, a, 1+i/5) // every kind in turn, the hash mismatch first
 			}
 		}
 		for i := 0; i < 12*c.Scale; i++ {
